@@ -172,8 +172,35 @@ fn random_forms(src: &mut Src, obs: &mut Obs) -> Res {
             _ => gen_elem(src, 1, floats),
         })
         .collect();
-    let form = src.below(4);
+    let form = src.below(6);
+    // length() / count() yield integers: not in a case whose numbers are floats (an integer meeting a float
+    // of equal value is the one case the property leaves open)
+    let form = if form == 5 && floats { 0 } else { form };
+    let relq = |sels: Vec<Sel>| Query { abs: false, segs: vec![Seg { desc: false, sels, dot: false }] };
     let (aarg, elems): (Arg, Vec<J>) = match form {
+        // the result of another function as first argument: `value()` of a query that selects one node
+        // (the node), none or several (nothing: the argument is missing), `length()` / `count()`
+        4 => (
+            Arg::F(Func { name: "value".into(), args: vec![Arg::Q(relq(vec![Sel::Wild]))] }),
+            elems.into_iter().map(|x| match src.below(4) {
+                0 => J::Arr(vec![]),
+                1 => J::Arr(vec![x.clone(), x]),
+                2 => J::Obj(vec![("k".into(), x)]),
+                _ => J::Arr(vec![x]),
+            }).collect(),
+        ),
+        5 => {
+            let f = if src.bool() { "length" } else { "count" };
+            let arg = if f == "length" { Arg::Q(Query { abs: false, segs: vec![] }) } else { Arg::Q(relq(vec![Sel::Wild])) };
+            (
+                Arg::F(Func { name: f.into(), args: vec![arg] }),
+                elems.into_iter().map(|x| match src.below(3) {
+                    0 => J::Arr(vec![x]),
+                    1 => J::Arr(vec![x.clone(), J::Null, x]),
+                    _ => J::Str("ab".into()),
+                }).collect(),
+            )
+        }
         3 => (
             Arg::Q(Query { abs: false, segs: vec![Seg { desc: false, sels: vec![Sel::Index(-1)], dot: false }] }),
             elems.into_iter().map(|x| if src.chance(1, 6) { J::Arr(vec![]) } else { J::Arr(vec![if floats { J::Float(9.5) } else { J::Int(9) }, x]) }).collect(),
@@ -187,7 +214,7 @@ fn random_forms(src: &mut Src, obs: &mut Obs) -> Res {
             let lit = match src.below(5) {
                 0 if floats => Lit::Num(num_lit_float(*src.pick(&[0.0, -0.0, 0.5, 1.5]))),
                 0 => Lit::Num(num_lit_int(src.range(0, 4))),
-                1 => Lit::Str(StrLit::plain(*src.pick(&["a", "b", "c", "", "1"]))),
+                1 => Lit::Str(StrLit::plain(*src.pick(&["a", "b", "c", "", "1", "(", "f(x)", ")"]))),
                 2 => Lit::Null,
                 3 => Lit::Bool(true),
                 _ => Lit::Bool(false),
@@ -212,7 +239,7 @@ fn random_forms(src: &mut Src, obs: &mut Obs) -> Res {
     let f = Func { name: fname.into(), args: vec![aarg, Arg::Q(Query { abs: true, segs: lsegs })] };
     let e = Expr::Test(src.chance(1, 4), Box::new(TestE::F(f)));
     let q = Query { abs: true, segs: vec![nseg("e"), Seg { desc: false, sels: vec![Sel::Filter(e)], dot: false }] };
-    obs.label(["first-arg-@", "first-arg-@[0]", "first-arg-literal", "first-arg-@[-1]"][form]);
+    obs.label(["first-arg-@", "first-arg-@[0]", "first-arg-literal", "first-arg-@[-1]", "first-arg-value(@.*)", "first-arg-length/count"][form]);
     obs.label(["list-arg-$.lst", "list-arg-$..lst", "list-arg-$.w[*]", "list-arg-$.w[0:1]", "list-arg-union-with-absent", "list-arg-filter", "list-arg-selects-nothing"][lform]);
     check(&q, &doc, obs)
 }
